@@ -231,7 +231,7 @@ def work_repo(bins, seed, idx, tmp):
 
 def run(ctx):
     quick = ctx.tier == "quick"
-    per = 12 if quick else 420
+    per = 36 if quick else 500
     for r in core.pmap(work_vectors, [(ctx.bins, "%s/%d/v%d" % (ctx.prop, ctx.seed, i), per, ctx.tmp) for i in range(32)]):
         ctx.merge_counts(r["st"])
         ctx.evaluations += r["st"]["runs"]
@@ -240,7 +240,7 @@ def run(ctx):
             ctx.refute(sig, why, case)
         for s in r["samples"][:1]:
             ctx.sample(s, cap=3)
-    nrep = 16 if quick else 320
+    nrep = 32 if quick else 400
     for r in core.pmap(work_repo, [(ctx.bins, "%s/%d" % (ctx.prop, ctx.seed), i, ctx.tmp) for i in range(nrep)]):
         ctx.merge_counts(r["st"])
         ctx.evaluations += r["st"]["repo_runs"]
